@@ -104,7 +104,7 @@ ICM(payouts, chips) ==
                           IN IF pos = {} THEN <<0, 1>>
                              ELSE QMul(<<payouts[CHOOSE j \in pos : TRUE], 1>>, OrderProb(chips, o, total))])]
 
-AnalysisKinds == {"range", "rangelist", "equity", "icm", "icmprop"}
+AnalysisKinds == {"range", "rangelist", "equity", "icm", "icmprop", "strength", "equityany"}
 
 ARep(k, it, what) == PrintT(<<"MISMATCH", k, it.kind, what, it>>)
 
@@ -157,10 +157,34 @@ IcmPropOK(k, it) ==
      /\ (\A i, j \in N : (it.chips[i] <= it.chips[j] /\ it.sorted) => it.micro[i] <= it.micro[j] + 1) \/ ARep(k, it, "values not ordered as the chips")
      /\ (\A i, j \in N : it.chips[i] = it.chips[j] => (it.micro[i] - it.micro[j]) \in -1..1) \/ ARep(k, it, "equal stacks, different values")
 
+\* hand strength: the player's share against n - 1 opponents whose hole cards are drawn uniformly from `rest`
+OppDeals(rest, k, m) ==      \* sequences of m disjoint k-card hands (as sequences of cards)
+  LET RECURSIVE F(_, _)
+      F(S, j) == IF j = 0 THEN {<<>>} ELSE UNION {{<<SetToSeq(h)>> \o d : d \in F(S \ h, j - 1)} : h \in kSubset(k, S)}
+  IN F(rest, m)
+StrengthExact(types, hole, board, rest, n) ==
+  LET ds == SetToSeq(OppDeals(rest, Len(hole), n - 1))
+  IN QMul(QSum([x \in DOMAIN ds |-> Shares(types, ds[x] \o <<hole>>, board)[n]]), <<1, Len(ds)>>)
+StrengthItemOK(k, it) ==
+  LET e == StrengthExact(it.types, it.hole, it.board, {it.rest[j] : j \in DOMAIN it.rest}, it.n)
+      d == it.micro * e[2] - e[1] * 1000000
+  IN /\ (it.micro >= 0 /\ it.micro <= 1000000) \/ ARep(k, it, "not a probability")
+     /\ (d <= it.tol * e[2] /\ 0 - d <= it.tol * e[2]) \/ ARep(k, it, <<"exact expectation", e, "code (millionths)", it.micro>>)
+     /\ (e[1] = 0 => it.micro = 0) \/ ARep(k, it, "a hand that never wins has strength > 0")
+     /\ (e = <<1, 1>> => it.micro >= 999999) \/ ARep(k, it, "a hand that always wins alone has strength < 1")
+\* any deal, however much of it was sampled: the values are shares of one pot (a high hand type is always among the types)
+EquityAnyOK(k, it) ==
+  LET sum == LET RECURSIVE G(_) G(j) == IF j = 0 THEN 0 ELSE it.micro[j] + G(j - 1) IN G(Len(it.micro)) IN
+  /\ (\A i \in DOMAIN it.micro : it.micro[i] >= 0) \/ ARep(k, it, "negative equity")
+  /\ Len(it.micro) = Len(it.holes) \/ ARep(k, it, "one value per player")
+  /\ (sum - 1000000 \in (0 - Len(it.micro))..Len(it.micro)) \/ ARep(k, it, <<"equities add up to", sum, "millionths">>)
+
 AnalysisOK(k, it) ==
   CASE it.kind = "range" -> RangeItemOK(k, it)
     [] it.kind = "rangelist" -> ListItemOK(k, it)
     [] it.kind = "equity" -> EquityItemOK(k, it)
     [] it.kind = "icm" -> IcmItemOK(k, it)
     [] it.kind = "icmprop" -> IcmPropOK(k, it)
+    [] it.kind = "strength" -> StrengthItemOK(k, it)
+    [] it.kind = "equityany" -> EquityAnyOK(k, it)
 =============================================================================
